@@ -792,7 +792,27 @@ func monConfine(r *rand.Rand, n int) {
 	e := newEnv(true)
 	defer e.close()
 	os.WriteFile(filepath.Join(e.root, "sibling"), []byte("decoy"), 0644)
+	// sibling DIRECTORIES whose names begin with the backend directory's name (a prefix test on strings would let
+	// them through: seed C13-7), each holding one decoy object
+	prefixSibs := []string{filepath.Base(e.dir) + "-witness", filepath.Base(e.dir) + "2", filepath.Base(e.dir) + ".bak"}
+	for _, d := range prefixSibs {
+		os.MkdirAll(filepath.Join(e.root, d), 0755)
+		os.WriteFile(filepath.Join(e.root, d, "secret"), []byte("decoy2"), 0644)
+	}
+	sibsIntact := func() string {
+		for _, d := range prefixSibs {
+			ents, _ := os.ReadDir(filepath.Join(e.root, d))
+			b, _ := os.ReadFile(filepath.Join(e.root, d, "secret"))
+			if len(ents) != 1 || string(b) != "decoy2" {
+				return d
+			}
+		}
+		return ""
+	}
 	keys := append(append([]string{}, badKeys...), oddKeys...)
+	for _, d := range prefixSibs {
+		keys = append(keys, "../"+d+"/secret", "../"+d+"/new", "a/../../"+d+"/secret", "../"+d)
+	}
 	keys = append(keys, ".", "../sibling", "store/../../sibling", "..\\sibling", "../store/x", "/etc/passwd", "a/../../sibling",
 		"\x00../sibling", "a/\x00/../..", "%2e%2e/sibling", "..%2fsibling", "．．/sibling", "a/../b", "x/./y")
 	for i := 0; i < n; i++ {
@@ -823,10 +843,26 @@ func monConfine(r *rand.Rand, n int) {
 				names = append(names, x.Name())
 			}
 			sort.Strings(names)
-			if strings.Join(names, ",") != "sibling,store" {
+			want := append([]string{"sibling", filepath.Base(e.dir)}, prefixSibs...)
+			sort.Strings(want)
+			if strings.Join(names, ",") != strings.Join(want, ",") {
 				res = "FAILS:C13-key-escapes:entries outside the directory:" + hx([]byte(strings.Join(names, ",")))
 			} else if b, _ := os.ReadFile(filepath.Join(e.root, "sibling")); string(b) != "decoy" {
 				res = "FAILS:C13-key-escapes:sibling overwritten"
+			} else if d := sibsIntact(); d != "" {
+				res = "FAILS:C13-key-escapes:object of the sibling directory " + d + " written or replaced by Upload"
+			}
+		}
+		if res == "holds" && strings.HasPrefix(k, "../") || strings.Contains(k, "/../../") {
+			// reading and deleting through an escaping key
+			if got, ferr := e.b.Fetch(e.ctx, k); ferr == nil {
+				res = "FAILS:C13-key-escapes:Fetch returned an object from outside the directory: " + hx(got)
+			}
+			if derr := e.b.Discard(e.ctx, k); derr == nil {
+				res = "FAILS:C13-key-escapes:Discard of a key outside the directory succeeded"
+			}
+			if d := sibsIntact(); d != "" && res == "holds" {
+				res = "FAILS:C13-key-escapes:object of the sibling directory " + d + " removed or replaced"
 			}
 		}
 		if res != "holds" || i%16 == 0 {
